@@ -70,7 +70,13 @@ func (x *Exec) call(st *State, fr *Frame, at ssa.Instruction, cc *ssa.CallCommon
 	if st.meta == nil {
 		st.meta = map[string]Val{}
 	}
-	// ... and what it was handed (spec: lastarg("pattern", k))
+	// ... and what it was handed (spec: lastarg("pattern", k)). Inside a guard on this very callee
+	// lastarg speaks about the call BEFORE the one being guarded (argN is the current one).
+	if prev, ok := st.meta["args:"+name]; ok {
+		st.meta["prevargs:"+name] = prev
+	} else {
+		delete(st.meta, "prevargs:"+name)
+	}
 	if cc.IsInvoke() {
 		// receiver first, as in the argN numbering of guards
 		st.meta["args:"+name] = Val{Tup: append([]Val{fnv}, args...)}
@@ -643,6 +649,7 @@ func (x *Exec) checkGuards(st *State, fr *Frame, at ssa.Instruction, callee stri
 		}
 		top := st.frames[0]
 		sc := x.scopeFor(st, top)
+		sc.guardCallee = callee
 		// also let the guard see the names of the frame where the call happens
 		if fr != top {
 			for n, b := range fr.names {
